@@ -24,6 +24,16 @@ UNITS = {
         oracle_body=RET_OPT, oracle_harness='getSampledIndex({position}, {offset}, {sampling_interval}, (PositionMatch){match});')),
 }
 
+H = 'include/nix/Dimensions.hpp'
+PAIR = r'boost::optional<std::pair<ndsize_t,\s*ndsize_t>>\s+'
+UNITS.update({
+    'DataFrameDimension_indexOf_pair': dict(file=F, locator=PAIR + r'DataFrameDimension::indexOf\s*\((?=\s*double\s+start\s*,\s*double\s+end\s*,\s*ndsize_t)',
+                                            cls='DataFrameDimension', cls_file=H),
+    'SetDimension_indexOf_pair': dict(file=F, locator=PAIR + r'SetDimension::indexOf\s*\((?=\s*double\s+start\s*,\s*double\s+end\s*,\s*std::vector)',
+                                      cls='SetDimension', cls_file=H, member_calls={'labels': 'SetDimension_labels'}),
+    'RangeDimension_indexOf_pair': dict(file=F, locator=PAIR + r'RangeDimension::indexOf\s*\((?=\s*double\s+start\s*,\s*double\s+end\s*,\s*std::vector)',
+                                        cls='RangeDimension', cls_file=H, member_calls={'ticks': 'RangeDimension_ticks'}),
+})
 IAX_COVERS = ['COVER-has', 'COVER-none']
 JOBS = [
     dict(name='getDataFrameIndex', bodies=['getDataFrameIndex'], enforce=['getDataFrameIndex'], covers=IAX_COVERS,
@@ -36,6 +46,14 @@ JOBS = [
          expect_kinds=['postcondition', 'precondition'], timeout=600),
 ]
 
+JOBS += [
+    dict(name='DataFrameDimension_indexOf_pair', bodies=['DataFrameDimension_indexOf_pair'], enforce=['DataFrameDimension_indexOf_pair'],
+         replace=['getDataFrameIndex'], covers=['COVER-pair-has', 'COVER-pair-none'], expect_kinds=['postcondition', 'precondition'], timeout=600),
+    dict(name='SetDimension_indexOf_pair', bodies=['SetDimension_indexOf_pair'], enforce=['SetDimension_indexOf_pair'],
+         replace=['getSetIndex', 'SetDimension_labels'], covers=['COVER-pair-has', 'COVER-pair-none'], expect_kinds=['postcondition', 'precondition'], timeout=600),
+    dict(name='RangeDimension_indexOf_pair', bodies=['RangeDimension_indexOf_pair'], enforce=['RangeDimension_indexOf_pair'],
+         replace=['getIndex'], covers=['COVER-pair-has', 'COVER-pair-none', 'COVER-backend-ticks'], expect_kinds=['postcondition', 'precondition'], timeout=600),
+]
 MATCHES = ['LessOrEqual', 'Less', 'GreaterOrEqual', 'Greater', 'Equal']
 def sampled_jobs():
     jobs = []
@@ -70,7 +88,7 @@ def sampled_jobs():
 JOBS += sampled_jobs()
 
 SPEC = dict(
-    contracts=['c07_leaf.h'],
+    contracts=['c07_leaf.h', 'c07_pair.h'],
     stubs=['std_algo.h'],
     units=UNITS,
     jobs=JOBS,
